@@ -72,6 +72,7 @@ type State struct {
 	B64         map[string]StrV   // base64 encoding term -> the string that was encoded
 	BlobOf      map[string]int    // opaque string standing for a structured blob -> heap object
 	FileOf      map[string]int    // opaque file name (zz.YAMLFile) -> heap object of its content
+	Gz          map[string]StrV   // gzip stream term -> the bytes it was made from
 	Now0        string
 	Occ         map[string]int
 	Nondet      []NondetRec
@@ -79,6 +80,8 @@ type State struct {
 	Trace       []string
 	Overflow    []string
 	NoPanic     bool
+	NoModel     map[string]bool // Go-source models switched off by the harness (shared, never mutated in place)
+	PanicMsg    string // a Go panic raised while this state was being set up as one side of a fork
 	Depth       int
 	Reached     []string
 	Assumes     int
@@ -96,7 +99,7 @@ func (s *State) setStack(f []*Frame) { s.Threads[s.Cur].Stack = f }
 func (s *State) push(f *Frame)       { s.Threads[s.Cur].Stack = append(s.Threads[s.Cur].Stack, f) }
 
 func (s *State) Fork() *State {
-	n := &State{NextObj: s.NextObj, Cur: s.Cur, Clock: s.Clock, ClockMax: s.ClockMax, Now0: s.Now0, NoPanic: s.NoPanic, Depth: s.Depth, Assumes: s.Assumes, Steps: s.Steps}
+	n := &State{NextObj: s.NextObj, Cur: s.Cur, Clock: s.Clock, ClockMax: s.ClockMax, Now0: s.Now0, NoPanic: s.NoPanic, NoModel: s.NoModel, Depth: s.Depth, Assumes: s.Assumes, Steps: s.Steps}
 	n.Heap = make(map[int]Value, len(s.Heap)+8)
 	for k, v := range s.Heap {
 		n.Heap[k] = v
@@ -132,6 +135,12 @@ func (s *State) Fork() *State {
 		n.B64 = make(map[string]StrV, len(s.B64))
 		for k, v := range s.B64 {
 			n.B64[k] = v
+		}
+	}
+	if s.Gz != nil {
+		n.Gz = make(map[string]StrV, len(s.Gz))
+		for k, v := range s.Gz {
+			n.Gz[k] = v
 		}
 	}
 	if s.FileOf != nil {
